@@ -184,6 +184,7 @@ prop("C08", "Parse is total: a tree or an error, never a panic, hang or silent a
     ("accepted_is_balanced_rel", "accepted_is_balanced", "the same for the relational reading of the text (no fuel)"),
     ("every_text_has_its_lines", "Toks_total", "which exists for every text"),
     ("and_only_one", "Toks_det", "and is unique"),
+    ("opener_must_end_in_its_brace", "opener_without_brace_rejected", "and a line taken for an opener that does not end in `{` (a deleted opening brace) is rejected, whatever braces the line itself contains"),
     ("nested_block_is_body_then_closer", "parse_block", "the induction behind it: a nested block that parses without error is a balanced body followed by its closer"),
     ("balanced_example", "ex_ok_tokens", "not vacuous: an if / else / nested loop text, its seven control lines, accepted"),
     ("unbalanced_examples", "ex_unbalanced_tokens", "and three unbalanced texts"),
